@@ -11,7 +11,11 @@ Diffs(ev, o) ==
 TStep ==
     /\ vkind = "" /\ l <= Len(Tr.steps) /\ l' = l + 1 /\ UNCHANGED tid
     /\ LET ev == Tr.steps[l].in  o == Tr.steps[l].out IN
-       IF ~EvEnabled(ev)
+       IF ev.e = "raised"      \* the code under test raised where no exception is specified
+       THEN /\ UNCHANGED tuvars /\ UNCHANGED seen
+            /\ Verdict("MISMATCH", [v |-> "MISMATCH", tid |-> Tr.id, l |-> l, clauses |-> {"raised"}, br |-> <<>>,
+                                    exp |-> [raised |-> FALSE], obs |-> o])
+       ELSE IF ~EvEnabled(ev)
        THEN UNCHANGED tuvars /\ UNCHANGED seen /\ Verdict("STUCK", [v |-> "STUCK", tid |-> Tr.id, l |-> l, ev |-> ev])
        ELSE /\ EvNext(ev)
             /\ seen' = seen \cup {ev.e}
